@@ -185,6 +185,66 @@ def find_ref(n, evs, loops):
     return None
 
 
+def discarded_matches(tree):
+    """Successful child matches whose result is dropped while their stack effects stay: on the success side of a failing-capable
+    child event, a leaf that goes on (returns success, continues or leaves a loop) without using the cursor that match produced —
+    directly or through later events on it — and without a `restore` in between.  (A matched iteration that is thrown away by a
+    "no progress" guard, seed C05-6.)"""
+    out = []
+
+    inner = set()       # loops entered after the match: their CONTINUE / BREAK only move on to the loop's exit, which is walked
+
+    def below(n, derived, eid, label):
+        tag = n[0]
+        if tag == "leaf":
+            if n[1] in ("RET_FAIL", "RET_ERR", "PANIC"):
+                return
+            if n[1] in ("CONTINUE", "BREAK") and n[2] in inner:
+                return
+            if not refs(n[1:], derived, set()):
+                out.append((eid, label, " ".join(map(str, n[1:3]))))
+            return
+        if tag in ("ev", "fork"):
+            o = n[2][0]
+            if o == "restore":
+                return
+            d = derived | {n[1]} if refs(n[2], derived, set()) else derived
+            for k in n[3:]:
+                below(k, d, eid, label)
+            return
+        if tag == "loop":
+            if refs(n[3], derived, set()):
+                return          # the cursor enters a loop: carried on
+            inner.add(n[1])
+            below(n[4], derived, eid, label)
+            below(n[5], derived, eid, label)
+            return
+        if tag == "opq":
+            for _, sub in n[2]:
+                below(sub, derived, eid, label)
+            return
+        if tag == "unm":
+            below(n[2], derived, eid, label)
+
+    def top(n):
+        tag = n[0]
+        if tag == "fork" and n[2][0] in ("MATCH", "FULL"):
+            below(n[3], {n[1]}, n[1], "%s(%s)" % (n[2][0], n[2][1][0] if n[2][1] else ""))
+        if tag in ("ev", "fork"):
+            for k in n[3:]:
+                top(k)
+        elif tag == "loop":
+            top(n[4])
+            top(n[5])
+        elif tag == "opq":
+            for _, sub in n[2]:
+                top(sub)
+        elif tag == "unm":
+            top(n[2])
+    top(tree)
+    return out
+
+
 def analysed_functions(world):
     """All twin methods + every function that calls snapshot/restore/clear_snapshot."""
     fns = {}
@@ -257,6 +317,31 @@ def run(ctx, ids=("R05-PAIR", "R05-RECOVER", "R05-PRED", "R05-CURSOR"), own=True
     for fid in callers:
         if fid not in fns:
             rp.violate(fid, "calls the snapshot API but was not analysed", world.fn_loc(fid))
+    if own:
+        rdis = ctx.rule("R05-DISCARD", "a child that matched is never thrown away with its stack effects kept: every path that goes on after a "
+                        "successful child match uses the cursor it produced, or passes `restore`")
+        unicode_done = False
+        for fid, (key, loc) in sorted(fns.items()):
+            if "::unicode::" in fid:
+                if unicode_done:
+                    continue
+                unicode_done = True
+            try:
+                t = world.tree(fid)
+            except edt.Unsupported:
+                continue
+            if key.startswith("ParsableTypedNode for "):
+                continue        # full-parse entry points return a tree, no cursor: stack and cursor end with the call
+            bad = discarded_matches(t)
+            n_forks = sum(1 for e in classes.events(t) if e[0] == "fork" and e[2][0] in ("MATCH", "FULL"))
+            if not n_forks:
+                continue
+            if bad:
+                rdis.violate(key, "after the successful %s (e%d) a path reaches `%s` without using the matched cursor and without `restore`" % (
+                    bad[0][1], bad[0][0], bad[0][2]), loc, edt.fmt(t))
+            else:
+                rdis.inst(key, loc, "ok", {"child_matches": n_forks})
+        rdis.require(90, "functions with child matches")     # 98 today
     rp.require(5, "functions using snapshots")       # restore_on_none, Positive x2, Negative x2 (+ inliners)
     rr.require(150, "recovery sites")                 # 77x2 choice alternatives + option + repetitions + negative
     rd.require(4, "look-ahead functions")
